@@ -259,7 +259,7 @@ func (e *Exec) codecMarshal(fr *frame, codec string, v Iface) Value {
 		return Tuple{Slice{}, e.newErrorString(e.strConst(codec + ": marshal error (stub)"))}
 	}
 	lv := e.freshVar(codec+".payload.len", 64)
-	n := e.forkRange(lv, 0, 2)
+	n := e.forkRange(lv, 1, 2) // a codec never produces an empty document
 	a := make([]Value, n)
 	p := make([]*Term, n)
 	for i := range a {
@@ -426,7 +426,7 @@ type gzipEntry struct {
 
 type gzipReaderState struct {
 	out  []*Term
-	done bool
+	good bool // produced by the writer stub: Close succeeds
 }
 
 func (e *Exec) ifaceBytesBuffer(r Iface) []*Term {
@@ -455,7 +455,7 @@ func init() {
 				continue
 			}
 			if e.branch(e.matchAt(data, ent.comp, 0)) {
-				e.objs[fmt.Sprintf("gzr%p", p)] = &gzipReaderState{out: ent.orig}
+				e.objs[fmt.Sprintf("gzr%p", p)] = &gzipReaderState{out: ent.orig, good: true}
 				return Tuple{p, Iface{}}
 			}
 		}
@@ -494,6 +494,9 @@ func init() {
 	})
 	reg("(*compress/gzip.Reader).Close", func(fr *frame, args []Value) Value {
 		e := fr.e
+		if st, _ := e.objs[fmt.Sprintf("gzr%p", args[0].(*Value))].(*gzipReaderState); st != nil && st.good {
+			return Iface{}
+		}
 		if e.branch(e.freshVar("gzip.close.ok", 0)) {
 			return Iface{}
 		}
